@@ -737,7 +737,31 @@ def rule_R9(text, log):
         text = text[:c['recv_start']] + after + text[end:]
 
 
-RULES = {'R9': rule_R9, 'R3c': rule_R3c, 'R19p': rule_R19p, 'R4e': rule_R4e, 'R4f': rule_R4f, 'R19': rule_R19, 'R9b': rule_R9b, 'R18': rule_R18, 'R4b': rule_R4b, 'R4c': rule_R4c, 'R4d': rule_R4d, 'R9c': rule_R9c, 'R16': rule_R16, 'R5': rule_R5, 'R15': rule_R15, 'R6bp': rule_R6bp,
+IF_MORE_BODY = 'Ok(match r.is_empty() { true => None, _ => Some(f(r)?), })'
+
+
+def rule_R8i(text, log, helper_body=None):
+    """if_more(r, |r| B)   ==>   (if r.is_empty() { Result::Ok(None) } else { Result::Ok(Some({ let res__: Result<_> = B; res__ }?)) })   [Result = the crate alias, fixing the error type]
+    beta-reduction of the call with if_more's own body `Ok(match r.is_empty() { true => None, _ => Some(f(r)?) })`;
+    the assembler applies it only after checking that the extracted if_more body is textually that (see assemble.py);
+    a `?` inside B leaves the caller with the same Err that if_more would have passed on."""
+    while True:
+        m = mask(text)
+        mm = re.search(r'\bif_more\s*\(\s*r\s*,\s*\|\s*r\s*\|', m)
+        if not mm:
+            return text
+        op = m.index('(', mm.start())
+        cl = match_close(m, op)
+        bar2 = m.index('|', m.index('|', op) + 1)
+        body = text[bar2 + 1:cl].strip()
+        if body.endswith(','):
+            body = body[:-1].rstrip()
+        after = '(if r.is_empty() { Result::Ok(None) } else { Result::Ok(Some({ let res__: Result<_> = %s; res__ }?)) })' % body
+        log.append(dict(rule='R8i', before=text[mm.start():cl + 1][:160], after=after[:200]))
+        text = text[:mm.start()] + after + text[cl + 1:]
+
+
+RULES = {'R8i': rule_R8i, 'R9': rule_R9, 'R3c': rule_R3c, 'R19p': rule_R19p, 'R4e': rule_R4e, 'R4f': rule_R4f, 'R19': rule_R19, 'R9b': rule_R9b, 'R18': rule_R18, 'R4b': rule_R4b, 'R4c': rule_R4c, 'R4d': rule_R4d, 'R9c': rule_R9c, 'R16': rule_R16, 'R5': rule_R5, 'R15': rule_R15, 'R6bp': rule_R6bp,
     'R1': rule_R1, 'R2': rule_R2, 'R3': rule_R3, 'R3b': rule_R3b, 'R4': rule_R4,
     'R6': rule_R6, 'R6b': rule_R6b, 'R6c': rule_R6c,
 }
